@@ -107,8 +107,24 @@ def _run_chunk(exe, lines, idx, label, per_case_timeout):
                 results.append("SKIPPED")
                 start += 1
         else:
-            # a case did not produce its line
-            results.append("HANG" if crashed is None else "CRASH")
+            # a case did not produce its line.  An abort may have come from outside (a neighbouring process exhausting memory
+            # gets this one killed): the suspect is run once more, alone, and only a second failure is held against it
+            verdict = "HANG" if crashed is None else "CRASH"
+            if crashed and start + got < n:
+                try:
+                    with open(path, "w") as f:
+                        f.write(lines[start + got] + "\n")
+                    p1 = subprocess.run([exe, path], stdout=subprocess.PIPE, stderr=subprocess.DEVNULL, timeout=60 + per_case_timeout,
+                                        env=dict(os.environ, BLH_CASE_MS=str(WATCHDOG_MS)))
+                    o1 = p1.stdout.decode("utf-8", "replace").split("\n")
+                    if p1.returncode == 0 and o1 and o1[0]:
+                        verdict = o1[0]
+                except subprocess.TimeoutExpired:
+                    verdict = "HANG"
+                finally:
+                    if os.path.exists(path):
+                        os.unlink(path)
+            results.append(verdict)
             start += got + 1
         if rounds > 200:
             results.extend(["SKIPPED"] * (n - start))
